@@ -15,6 +15,8 @@ def sig(f):
     ev = f.get("event", {})
     if f.get("invariant"):
         return "%s:%s" % (ev.get("ev"), f["invariant"])
+    if ev.get("ev") == "crash":
+        return "crash-in-%s:reopened-state-is-neither-before-nor-after-the-call" % ev.get("op")
     return "%s:observable-differs-from-DSMRStorage" % ev.get("ev")
 
 
@@ -54,6 +56,11 @@ def binding_tv(ctx, scenarios):
                     saved_live += 1
             if l["ev"] == "remote" and l["res"] == "rejected":
                 ctx.add("verifier_rejections", 1)
+            if l["ev"] == "crash":
+                ctx.add("crashes_in_" + l["op"], 1)
+                ctx.add("crashes_after_%d_writes" % l["writes"], 1)
+                if l["op"] == "setmin" and l["save"]:
+                    ctx.add("crashes_in_setmin_that_saves", 1)
         if saved_live:
             ctx.add("scenarios_reopened_after_save", 1)
             distinct.add(hash(tuple((l["ev"], l.get("c", ""), l.get("t", 0), tuple(l.get("save", [])), tuple(l["pend"]))
@@ -62,6 +69,9 @@ def binding_tv(ctx, scenarios):
     ctx.add("distinct_nontrivial", len(distinct))
     if ctx.only is None and not ctx.cov.get("scenarios_reopened_after_save"):
         raise vlib.Infra("vacuous: no scenario reopened the storage after saving a chunk")
+    for k in ("crashes_in_setmin", "crashes_in_setmin_that_saves", "crashes_in_addlocal", "crashes_in_remote"):
+        if ctx.only is None and not ctx.cov.get(k):
+            raise vlib.Infra("vacuous: no recorded scenario has %s" % k)
     ctx.sample({"kind": "recorded-trace", "first_lines": vlib.read_ndjson(files[0])[:5]})
     fails = vlib.validate_scenarios(ctx, "DSMRStorage_Trace", "DSMRStorage_Trace.cfg", files, label="tv",
                                     signature_fn=sig)
@@ -118,14 +128,20 @@ def run(ctx):
             ctx.cov["design_step_detects_pre_fix_SetMin"] = bool(r["violated"])
             if not r["violated"]:
                 raise vlib.Infra("sensitivity: the model of the pre-fix SetMin no longer violates Durable")
-    behs = generate(ctx, ctx.pick(40, 400)) if ctx.only is None else None
-    scenarios = ctx.pick(300, 3000)
+            r = vlib.tlc_mc(ctx, "DSMRStorage_MC", "DSMRStorage_MC_twowrites.cfg", label="twowrites", expect_violation=True)
+            ctx.cov["design_step_detects_two_write_SetMin"] = bool(r["violated"])
+            if not r["violated"]:
+                raise vlib.Infra("sensitivity: a SetMin of two separate durable writes no longer violates CrashAtomic")
+    behs = generate(ctx, ctx.pick(20, 400)) if ctx.only is None else None
+    scenarios = ctx.pick(150, 2000)
     run_driver(ctx, scenarios, ctx.pick(30, 60), behs)
     fails = binding_tv(ctx, scenarios)
     if behs is not None:
         fails += binding_mbt(ctx, behs)
     vlib.report_failures(ctx, fails, describe)
-    ctx.cov["rule"] = ("tv: seeded random addlocal/remote/setcert/setmin(save subset of pending)/reopen histories over 5 chunks "
+    ctx.cov["rule"] = ("tv: seeded random addlocal/remote/setcert/setmin(save subset of pending)/reopen histories (one call in five "
+                       "with a crash point after 0-2 durable writes: the driver's database refuses the next write, the storage is "
+                       "reopened on the image) over 5 chunks "
                        "of 3 producers on memdb (every 16th/8th scenario on pebble with a real close+open); a scenario is "
                        "non-trivial when it reopens after a SetMin that saved a chunk; distinct = distinct "
                        "(event,chunk,t,save,pending) sequences. mbt: TLC -simulate walks of DSMRStorage, deduplicated, "
@@ -134,4 +150,6 @@ def run(ctx):
                         "a SetMin that returns an error is outside the histories of the statement",
                         "VerifyRemoteChunk is not called for a pending chunk that has no certificate (documented caller precondition)",
                         "chunk expiry 0 (never tracked by the expiry map) is not generated",
-                        "certificates are not required to survive a reopen (the statement does not list them)"]
+                        "certificates are not required to survive a reopen (the statement does not list them)",
+                        "crash = every durable write after the crash point is lost, writes before it are complete (no torn batch: "
+                        "database batches are atomic)"]
